@@ -1,6 +1,6 @@
 /* C04: authorization is enforced — the harness is the client side of the session protocol (OpenSSL),
  * the Lean checker recomputes everything independently (Crypto.Sha: cpHash, rpHash, HMAC, KDFa). */
-typedef struct { uint32_t h; uint8_t nonceTPM[32]; uint8_t nonceCaller[32]; uint8_t key[32]; int keylen; uint32_t bind; char bindAuth[8]; uint8_t stale[32]; int have_stale; } HSess;
+typedef struct { uint32_t h; uint8_t nonceTPM[32]; uint8_t nonceCaller[32]; uint8_t key[32]; int keylen; uint32_t bind; char bindAuth[8]; uint8_t stale[32]; int have_stale; int is_policy, needAuth, needPw; } HSess;
 
 static void c04_sha256(const uint8_t *a, size_t an, const uint8_t *b2, size_t bn, const uint8_t *c, size_t cn, uint8_t out[32]) {
     EVP_MD_CTX *m = EVP_MD_CTX_new(); EVP_DigestInit_ex(m, EVP_sha256(), NULL);
@@ -70,6 +70,191 @@ static Rsp c04_authcmd(Buf *b, HSess *s, uint32_t cc, uint32_t h1, const uint8_t
     return r;
 }
 static void be32buf(uint8_t *p, uint32_t v) { p[0] = v >> 24; p[1] = v >> 16; p[2] = v >> 8; p[3] = v; }
+
+
+/* ---------- general form: up to 2 sessions, HMAC / policy / password ---------- */
+enum { M_HMAC_AUTH = 0, M_HMAC_NOAUTH, M_PW_FIELD, M_RS_PW, M_EMPTY };
+typedef struct { HSess *s; int mode; const char *auth; } ASpec;
+
+static Rsp c04_send(Buf *b, uint32_t cc, int nh, const uint32_t *h, const uint8_t *const *names, const int *nl, const uint8_t *params, int pl,
+                    int ns, ASpec *as, int corrupt, const char *what) {
+    uint8_t cph[32]; Buf m = {0};
+    b_u32(&m, cc); for (int i = 0; i < nh; i++) b_bytes(&m, names[i], nl[i]); b_bytes(&m, params, pl);
+    if (corrupt == K_NAME) m.p[4 + rnd(nl[0])] ^= 1 << rnd(8);
+    c04_sha256(m.p, m.n, NULL, 0, NULL, 0, cph); b_reset(&m);
+    uint8_t nc[2][32], hm[2][64]; int hl[2]; uint8_t old[2][32];
+    for (int i = 0; i < ns; i++) {
+        HSess *s = as[i].s; const char *av = (corrupt == K_AUTHVAL && i == 0) ? "WRONG" : as[i].auth;
+        for (int q = 0; q < 32; q++) nc[i][q] = rnd(256);
+        if (s) memcpy(old[i], s->nonceTPM, 32);
+        switch (as[i].mode) {
+        case M_RS_PW: case M_PW_FIELD: hl[i] = (int)strlen(av); memcpy(hm[i], av, hl[i]); break;
+        case M_EMPTY: hl[i] = 0; break;
+        default: {
+            uint8_t key[64]; int kl = s->keylen; memcpy(key, s->key, kl);
+            if (as[i].mode == M_HMAC_AUTH) { memcpy(key + kl, av, strlen(av)); kl += (int)strlen(av); }
+            else if (corrupt == K_AUTHVAL && i == 0) { key[kl++] = 'x'; }
+            const uint8_t *nt = s->nonceTPM;
+            if (corrupt == K_STALE_NONCE && i == 0) { if (s->have_stale) nt = s->stale; else corrupt = K_HMAC; }
+            b_bytes(&m, cph, 32); b_bytes(&m, nc[i], 32); b_bytes(&m, nt, 32); b_u8(&m, 0x01);
+            c04_hmac(key, kl, m.p, m.n, hm[i]); hl[i] = 32; b_reset(&m);
+            if (corrupt == K_HMAC && i == 0) hm[i][rnd(32)] ^= 1 << rnd(8);
+        } }
+    }
+    b_free(&m);
+    Buf pm = {0}; b_bytes(&pm, params, pl);
+    if (corrupt == K_PARAM && pl > 0) pm.p[rnd(pl)] ^= 1 << rnd(8);
+    int send_ns = corrupt == K_MISSING ? ns - 1 : ns;
+    cmd_begin(b, send_ns ? ST_SESSIONS : ST_NO_SESSIONS, cc); for (int i = 0; i < nh; i++) b_u32(b, h[i]);
+    if (send_ns) {
+        size_t at = b->n; b_u32(b, 0);
+        for (int i = 0; i < send_ns; i++) {
+            int pw = as[i].mode == M_RS_PW;
+            b_u32(b, pw ? 0x40000009u : as[i].s->h); if (pw) b_u16(b, 0); else b_2b(b, nc[i], 32);
+            b_u8(b, (corrupt == K_ATTR && i == 0) ? 0x81 : 0x01); b_2b(b, hm[i], hl[i]);
+        }
+        b_put32(b, at, (uint32_t)(b->n - at - 4));
+    }
+    b_bytes(b, pm.p, pm.n); b_free(&pm);
+    Rsp r = run(b);
+    tr_begin("auth what=%s corrupt=%d sh=%u rc=%u", what, corrupt, ns && as[0].s ? as[0].s->h : 0, r.rc); trhex("req", b->p, b->n); trhex("rsp", r.p, r.len); tr_end();
+    if (r.rc == 0 && r.tag == ST_SESSIONS) {
+        uint32_t psz = g32(r.p + 10); size_t off = 14 + psz;
+        for (int i = 0; i < send_ns && off + 2 <= r.len; i++) {
+            uint16_t nl2 = g16(r.p + off); const uint8_t *np = r.p + off + 2; off += 2 + nl2 + 1; if (off + 2 > r.len) break; uint16_t hl2 = g16(r.p + off); off += 2 + hl2;
+            HSess *s = as[i].s; if (as[i].mode == M_RS_PW || !s || nl2 != 32) continue;
+            memcpy(s->stale, old[i], 32); s->have_stale = 1; memcpy(s->nonceTPM, np, 32);
+            if (s->is_policy) { s->needAuth = s->needPw = 0; }
+        }
+    }
+    return r;
+}
+/* policy commands on session s; each traced for the model */
+static uint32_t c04_pol(Buf *b, HSess *s, uint32_t cc, uint32_t code, const uint8_t (*ds)[32], int nds) {
+    cmd_begin(b, ST_NO_SESSIONS, cc); b_u32(b, s->h);
+    if (cc == CC_PolicyCommandCode) b_u32(b, code);
+    if (cc == CC_PolicyOR) { b_u32(b, nds); for (int i = 0; i < nds; i++) b_2b(b, ds[i], 32); }
+    Rsp r = run(b);
+    tr_begin("pol sh=%u cc=%x code=%u rc=%u", s->h, cc, code, r.rc);
+    if (cc == CC_PolicyOR) { fprintf(g_tr, " digests="); for (int i = 0; i < nds; i++) { for (int q = 0; q < 32; q++) fprintf(g_tr, "%02x", ds[i][q]); if (i + 1 < nds) fputc(',', g_tr); } }
+    tr_end();
+    if (r.rc == 0) {
+        if (cc == CC_PolicyAuthValue) { s->needAuth = 1; s->needPw = 0; } else if (cc == CC_PolicyPassword) { s->needPw = 1; s->needAuth = 0; }
+        else if (cc == CC_PolicyRestart) s->needAuth = s->needPw = 0;
+    }
+    return r.rc;
+}
+static int c04_getdigest(Buf *b, HSess *s, uint8_t out[32]) {
+    cmd_begin(b, ST_NO_SESSIONS, CC_PolicyGetDigest); b_u32(b, s->h); Rsp r = run(b);
+    if (r.rc != 0 || r.len < 12 + 32 || g16(r.p + 10) != 32) { tr("pgd sh=%u rc=%u", s->h, r.rc); return -1; }
+    memcpy(out, r.p + 12, 32); tr_begin("pgd sh=%u rc=0", s->h); trhex("digest", out, 32); tr_end(); return 0;
+}
+enum { BR_W, BR_R, BR_C, BR_D };
+typedef struct { uint32_t idx; char auth[8]; uint8_t name[34]; int nl; uint8_t d[4][32]; uint8_t P[32]; uint8_t data[16]; int exists; } PolNv;
+
+static void c04_nvname(Buf *b, PolNv *n) {
+    cmd_begin(b, ST_NO_SESSIONS, CC_NV_ReadPublic); b_u32(b, n->idx); Rsp r = run(b);
+    if (r.rc == 0) { uint16_t pl = g16(r.p + 10); n->nl = g16(r.p + 12 + pl); if (n->nl <= 34) memcpy(n->name, r.p + 14 + pl, n->nl); }
+    tr_begin("ent handle=%u kind=nv authread=1 authwrite=0 polread=1 polwrite=1", n->idx); trhex("name", n->name, n->nl); trhex("auth", (uint8_t *)n->auth, strlen(n->auth)); trhex("policy", n->P, 32); trhex("nv", n->data, 16); tr_end();
+}
+static void c04_branch(Buf *b, HSess *s, PolNv *n, int br, int dev);
+static void c04_poldefine(Buf *b, PolNv *n, HSess *ps) {
+    uint32_t attrs = (1u << 3) | (1u << 10) | (1u << 18) | (1u << 19) | (1u << 25) | (1u << 30);
+    cmd_begin(b, ST_SESSIONS, CC_NV_DefineSpace); b_u32(b, RH_PLATFORM); auth_pw(b, "", 0); b_2b(b, n->auth, strlen(n->auth));
+    b_u16(b, 14 + 32); b_u32(b, n->idx); b_u16(b, ALG_SHA256); b_u32(b, attrs); b_2b(b, n->P, 32); b_u16(b, 16);
+    Rsp r = run(b); tr("nvdefine handle=%u rc=%u", n->idx, r.rc);
+    n->exists = r.rc == 0; memset(n->data, 0xff, 16);
+    if (!n->exists) return;
+    c04_nvname(b, n);
+    /* first write (through the policy, the only way to write): afterwards the index is readable and its name is final */
+    c04_branch(b, ps, n, 0, 0);
+    ASpec as[1] = { { ps, 0 /* M_HMAC_AUTH */, n->auth } };
+    const uint8_t *names[2] = { n->name, n->name }; int nl[2] = { n->nl, n->nl }; uint32_t hh[2] = { n->idx, n->idx };
+    uint8_t p[2 + 16 + 2]; p[0] = 0; p[1] = 16; for (int q = 0; q < 16; q++) p[2 + q] = n->data[q] = rnd(256); p[18] = p[19] = 0;
+    Rsp r2 = c04_send(b, CC_NV_Write, 2, hh, names, nl, p, 20, 1, as, 0, "pol-nvwrite-first");
+    if (r2.rc != 0) { n->exists = 0; return; }
+    c04_nvname(b, n);
+}
+/* build branch `br` of the policy on session s; `dev` deviates from the correct sequence */
+static void c04_branch(Buf *b, HSess *s, PolNv *n, int br, int dev) {
+    c04_pol(b, s, CC_PolicyRestart, 0, NULL, 0);
+    uint32_t code = br == BR_W ? CC_NV_Write : br == BR_C ? CC_NV_ChangeAuth : CC_NV_UndefineSpaceSpecial;
+    if (dev == 1) code = CC_NV_Read;                       /* wrong command code in the policy */
+    switch (br) {
+    case BR_W: c04_pol(b, s, CC_PolicyCommandCode, code, NULL, 0); if (dev != 2) c04_pol(b, s, dev == 5 ? CC_PolicyPassword : CC_PolicyAuthValue, 0, NULL, 0); break;
+    case BR_R: c04_pol(b, s, dev == 5 ? CC_PolicyAuthValue : CC_PolicyPassword, 0, NULL, 0); break;
+    case BR_C: c04_pol(b, s, CC_PolicyCommandCode, code, NULL, 0); break;
+    default:   if (dev != 2) c04_pol(b, s, CC_PolicyAuthValue, 0, NULL, 0); c04_pol(b, s, CC_PolicyCommandCode, code, NULL, 0); break;
+    }
+    if (dev == 6) c04_pol(b, s, CC_PolicyCommandCode, CC_NV_Read, NULL, 0);   /* second, conflicting command code: refused */
+    if (dev != 3) c04_pol(b, s, CC_PolicyOR, 0, (const uint8_t (*)[32])n->d, 4); /* dev 3: the OR step is left out */
+    if (dev == 4) c04_pol(b, s, CC_PolicyAuthValue, 0, NULL, 0);                /* an extra step after the OR */
+    if (chance(30)) { uint8_t dg[32]; c04_getdigest(b, s, dg); }
+}
+static void c04_policy_rounds(Buf *b, int rounds) {
+    PolNv n; memset(&n, 0, sizeof n); n.idx = 0x01600010u; strcpy(n.auth, "pv1");
+    HSess t, ps;
+    /* the four branch digests and the OR over them, computed by the TPM in a trial session and recomputed by the model */
+    if (c04_start(b, &t, RH_NULL, "", 3) != 0) return;
+    t.is_policy = 1;
+    for (int br = 0; br < 4; br++) {
+        c04_pol(b, &t, CC_PolicyRestart, 0, NULL, 0);
+        if (br == BR_W) { c04_pol(b, &t, CC_PolicyCommandCode, CC_NV_Write, NULL, 0); c04_pol(b, &t, CC_PolicyAuthValue, 0, NULL, 0); }
+        else if (br == BR_R) c04_pol(b, &t, CC_PolicyPassword, 0, NULL, 0);
+        else if (br == BR_C) c04_pol(b, &t, CC_PolicyCommandCode, CC_NV_ChangeAuth, NULL, 0);
+        else { c04_pol(b, &t, CC_PolicyAuthValue, 0, NULL, 0); c04_pol(b, &t, CC_PolicyCommandCode, CC_NV_UndefineSpaceSpecial, NULL, 0); }
+        if (c04_getdigest(b, &t, n.d[br]) != 0) return;
+    }
+    c04_pol(b, &t, CC_PolicyRestart, 0, NULL, 0); c04_pol(b, &t, CC_PolicyOR, 0, (const uint8_t (*)[32])n.d, 4);
+    if (c04_getdigest(b, &t, n.P) != 0) return;
+    cmd_begin(b, ST_NO_SESSIONS, CC_FlushContext); b_u32(b, t.h); run(b); tr("sflush h=%u", t.h);
+    uint8_t platname[4]; be32buf(platname, RH_PLATFORM);
+    tr_begin("ent handle=%u", RH_PLATFORM); trhex("name", platname, 4); trhex("auth", NULL, 0); tr_end();
+    if (c04_start(b, &ps, RH_NULL, "", 1) != 0) return;
+    ps.is_policy = 1;
+    c04_poldefine(b, &n, &ps);
+    if (!n.exists) return;
+    HSess hs; int have_hs = c04_start(b, &hs, RH_NULL, "", 0) == 0;
+    for (int i = 0; i < rounds; i++) {
+        if (!n.exists) { c04_poldefine(b, &n, &ps); if (!n.exists) return; }
+        int br = chance(8) ? BR_D : rnd(3);
+        int dev = chance(55) ? 0 : 1 + rnd(6);
+        int corrupt = chance(70) ? K_NONE : 1 + rnd(K_NCOUNT - 1);
+        int usecmd = chance(85) ? br : rnd(4);               /* sometimes the session built for one command is used for another */
+        c04_branch(b, &ps, &n, br, dev);
+        int mode = ps.needPw ? M_PW_FIELD : ps.needAuth ? M_HMAC_AUTH : M_EMPTY;
+        if (chance(6)) mode = rnd(5) == M_RS_PW ? M_EMPTY : rnd(3);   /* the wrong kind of proof for the session's state */
+        ASpec as[2] = { { &ps, mode, n.auth }, { NULL, M_RS_PW, "" } };
+        const uint8_t *names[2] = { n.name, platname }; int nl[2] = { n.nl, 4 }; uint32_t hh[2] = { n.idx, n.idx };
+        if (chance(8) && have_hs) { as[0].s = &hs; as[0].mode = M_HMAC_AUTH; }          /* HMAC session where a policy may be required */
+        else if (chance(5)) { as[0].s = NULL; as[0].mode = M_RS_PW; }                   /* password session */
+        switch (usecmd) {
+        case BR_W: { uint8_t p[8]; p[0] = 0; p[1] = 4; for (int q = 0; q < 4; q++) p[2 + q] = rnd(256); p[6] = 0; p[7] = 4 * rnd(4);
+            names[1] = n.name; nl[1] = n.nl;
+            Rsp r = c04_send(b, CC_NV_Write, 2, hh, names, nl, p, 8, 1, as, corrupt, "pol-nvwrite");
+            if (r.rc == 0) memcpy(n.data + p[7], p + 2, 4);
+            cmd_begin(b, ST_SESSIONS, CC_NV_Read); b_u32(b, n.idx); b_u32(b, n.idx); auth_pw(b, n.auth, strlen(n.auth)); b_u16(b, 16); b_u16(b, 0); Rsp rr = run(b);
+            tr_begin("effect handle=%u cmd_rc=%u rc=%u", n.idx, r.rc, rr.rc); if (rr.rc == 0) trhex("actual", rr.p + 16, 16); tr_end();
+            break; }
+        case BR_R: { uint8_t p[4] = {0, 8, 0, (uint8_t)rnd(8)}; names[1] = n.name; nl[1] = n.nl;
+            c04_send(b, CC_NV_Read, 2, hh, names, nl, p, 4, 1, as, corrupt, "pol-nvread"); break; }
+        case BR_C: { char na[4]; na[0] = 'p'; na[1] = 'a' + rnd(20); na[2] = '0' + rnd(10); na[3] = 0; uint8_t p[5] = {0, 3, (uint8_t)na[0], (uint8_t)na[1], (uint8_t)na[2]};
+            if (corrupt == K_PARAM) corrupt = K_NONE;   /* no HMAC protects the parameters in this branch: the harness would lose track of the value */
+            c04_send(b, CC_NV_ChangeAuth, 1, hh, names, nl, p, 5, 1, as, corrupt, "pol-nvchangeauth");
+            /* which value is in force now is decided by a password read with each candidate */
+            cmd_begin(b, ST_SESSIONS, CC_NV_Read); b_u32(b, n.idx); b_u32(b, n.idx); auth_pw(b, na, 3); b_u16(b, 1); b_u16(b, 0); Rsp rr = run(b);
+            tr_begin("auth what=probe-newauth corrupt=0 sh=0 rc=%u", rr.rc); trhex("req", b->p, b->n); trhex("rsp", rr.p, rr.len); tr_end();
+            if (rr.rc == 0) strcpy(n.auth, na);
+            break; }
+        default: { hh[1] = RH_PLATFORM; if (as[0].mode == M_RS_PW && as[0].s == NULL) as[0].auth = n.auth;
+            Rsp r = c04_send(b, CC_NV_UndefineSpaceSpecial, 2, hh, names, nl, NULL, 0, 2, as, corrupt, "pol-undefinespecial");
+            cmd_begin(b, ST_NO_SESSIONS, CC_NV_ReadPublic); b_u32(b, n.idx); Rsp rr = run(b);
+            tr("exists handle=%u cmd_rc=%u rc=%u", n.idx, r.rc, rr.rc);
+            n.exists = rr.rc == 0; if (!n.exists) strcpy(n.auth, "pv1");
+            break; }
+        }
+    }
+}
 
 static void scen_c04(int histories, int rounds) {
     Buf b = {0};
@@ -150,6 +335,9 @@ static void scen_c04(int histories, int rounds) {
                 break; }
             }
         }
+        cmd_begin(&b, ST_NO_SESSIONS, CC_FlushContext); b_u32(&b, su.h); run(&b); cmd_begin(&b, ST_NO_SESSIONS, CC_FlushContext); b_u32(&b, sb.h); run(&b);
+        tr("sflush h=%u", su.h); tr("sflush h=%u", sb.h);
+        c04_policy_rounds(&b, rounds / 2);
     }
     b_free(&b);
 }
